@@ -20,9 +20,9 @@ import (
 
 func init() {
 	register(&propSpec{
-		ID:    "C16",
-		Level: "proof",
-		Run:   runC16,
+		ID:          "C16",
+		Level:       "proof",
+		Run:         runC16,
 		Explanation: "E-LOOP/E-TERM: constant-bound loops of BytesFromLowBits and I32FromBytes are unrolled by constant propagation with the four bit helpers inlined; each output is recognised as an accumulation chain copying single input bits into distinct output bits; the two derived 32-entry bit tables are checked to be mutually inverse permutations with byte i = bits 8i..8i+7. Holds for all 2^32 values because the chains are identities of expressions.",
 		Assumptions: []string{
 			"Go semantics of &, |, << on int8/int32 (1<<7 wraps to the sign bit in int8) and of integer conversions",
